@@ -2427,3 +2427,68 @@ package sarama
 // a produce request is made of (the request, the records union, record batches and records with their headers,
 // legacy message sets, blocks and messages).
 //@ wiredual props C04: ProduceRequest Records RecordBatch Record RecordHeader MessageSet MessageBlock Message Timestamp
+
+// ---------------------------------------------------------------------------------------------
+// (C15) public read paths: the answer comes from the cache; a miss triggers exactly one refresh of that topic and
+// the answer is then the one looked up after the refresh; a refresh that fails is reported, a miss that persists
+// is ErrUnknownTopicOrPartition; the replica lists returned are the ones of the cached metadata entry.
+//@ ghost field client.refreshCalls int
+//@ func (client *client) RefreshMetadata(topics) trusted
+//@   returns err
+//@   effect client.refreshCalls == old(client.refreshCalls) + 1
+//@   modifies client.*
+
+//@ func (client *client) Partitions(topic) props C15
+//@   returns r, e
+//@   per_return
+//@   callsite client.RefreshMetadata: requires[only_on_miss] len(partitions) == 0 && $arg0 == topic
+//@   callsite client.cachedPartitions: requires[all_partitions_of_this_topic] $topic == topic && $partitionSet == allPartitions
+//@   ensures[at_most_one_refresh] client.refreshCalls <= old(client.refreshCalls) + 1
+//@   ensures[answer_is_the_latest_lookup] e == nil ==> r == partitions && len(r) > 0
+//@   nosafety
+
+//@ func (client *client) WritablePartitions(topic) props C15
+//@   returns r, e
+//@   per_return
+//@   callsite client.RefreshMetadata: requires[only_on_miss] len(partitions) == 0 && $arg0 == topic
+//@   callsite client.cachedPartitions: requires[writable_partitions_of_this_topic] $topic == topic && $partitionSet == writablePartitions
+//@   ensures[at_most_one_refresh] client.refreshCalls <= old(client.refreshCalls) + 1
+//@   ensures[answer_is_the_latest_lookup] e == nil ==> r == partitions && !isnil(r)
+//@   nosafety
+
+//@ func (client *client) Replicas(topic, partitionID) props C15
+//@   returns r, e
+//@   per_return
+//@   callsite client.RefreshMetadata: requires[only_on_miss] metadata == nil && $arg0 == topic
+//@   callsite client.cachedMetadata: requires[this_partition] $topic == topic && $partitionID == partitionID
+//@   callsite pkg.dupInt32Slice: requires[replicas_of_the_entry] metadata != nil && $input == metadata.Replicas
+//@   ensures[at_most_one_refresh] client.refreshCalls <= old(client.refreshCalls) + 1
+//@   ensures[answer_or_replica_error] metadata != nil && !isnil(r) ==> (e == nil && metadata.Err != ErrReplicaNotAvailable) || (e == ErrReplicaNotAvailable && metadata.Err == ErrReplicaNotAvailable)
+//@   nosafety
+
+//@ func (client *client) InSyncReplicas(topic, partitionID) props C15
+//@   returns r, e
+//@   per_return
+//@   callsite client.RefreshMetadata: requires[only_on_miss] metadata == nil && $arg0 == topic
+//@   callsite client.cachedMetadata: requires[this_partition] $topic == topic && $partitionID == partitionID
+//@   callsite pkg.dupInt32Slice: requires[isr_of_the_entry] metadata != nil && $input == metadata.Isr
+//@   ensures[at_most_one_refresh] client.refreshCalls <= old(client.refreshCalls) + 1
+//@   nosafety
+
+//@ func (client *client) OfflineReplicas(topic, partitionID) props C15
+//@   returns r, e
+//@   per_return
+//@   callsite client.RefreshMetadata: requires[only_on_miss] metadata == nil && $arg0 == topic
+//@   callsite client.cachedMetadata: requires[this_partition] $topic == topic && $partitionID == partitionID
+//@   callsite pkg.dupInt32Slice: requires[offline_replicas_of_the_entry] metadata != nil && $input == metadata.OfflineReplicas
+//@   ensures[at_most_one_refresh] client.refreshCalls <= old(client.refreshCalls) + 1
+//@   nosafety
+
+//@ func (client *client) Leader(topic, partitionID) props C15
+//@   returns b, e
+//@   per_return
+//@   callsite client.RefreshMetadata: requires[only_on_miss] leader == nil && $arg0 == topic
+//@   callsite client.cachedLeader: requires[this_partition] $topic == topic && $partitionID == partitionID
+//@   ensures[at_most_one_refresh] client.refreshCalls <= old(client.refreshCalls) + 1
+//@   ensures[answer_is_the_latest_lookup] client.refreshCalls == old(client.refreshCalls) + 1 && b != nil ==> b == leader
+//@   nosafety
